@@ -16,6 +16,7 @@ SPEC = {
         "from_exec_iter keeps iteration order; join/capture return the wait() of the last element; every pipeline "
         "terminator creates processes only through Pipeline::popen; setup_communicate hands the communicator "
         "(first.stdin, last.stdout, read end of the shared stderr pipe)."
+        " Also: the spawn-loop function is found by census (the one pipeline function calling Exec::popen), so extracting it into a helper does not move the rules; Pipeline setters store into the field the loop reads; a length test may refuse only fewer than two commands."
     ),
     "not_decided": "\"the result equals the composition of the stages\" as an input/output statement; that no stderr line is lost "
                    "(kernel pipe semantics); exit-status values.",
